@@ -43,6 +43,12 @@ def variants(rng, t):
     ws = t.split(' ')
     if len(ws) >= 2 and rng.random() < .2:      # new text repeating material around the change point (prefix and suffix candidates overlap)
         return rng.choice([ws[0] + ' ' + t, t + ' ' + ws[-1], ' '.join(ws[:-1]) + ' ' + ' '.join(ws[:-1]) + ' ' + ws[-1], ws[0] + ' ' + ws[0] + ' ' + ' '.join(ws[1:])])
+    dup = [i for i in range(len(ws) - 1) if ws[i] == ws[i + 1] and ws[i]]
+    if dup and rng.random() < .6:                       # one copy of a repeated word removed
+        i = rng.choice(dup); return ' '.join(ws[:i] + ws[i + 1:])
+    if len(t) >= 3 and rng.random() < .12:            # the middle removed / only a head kept: common prefix and suffix candidates of target and new text overlap when characters repeat
+        a = rng.randint(1, len(t) - 1); b = rng.randint(a, len(t))
+        return t[:a] + t[b:]
     return rng.choice([rng.choice(NEWS), '', t + ' more', 'pre ' + t, t[:k] + 'Q' + t[k:], t[:k], t[k:], t.upper(), '**' + t.strip() + '**', '_it_ ' + t, t + ' ', 'a**b', 'x_y_z'])
 def gen_batch(rng, din, raw, clean, kind='exact'):
     """returns list of (target, new, comment, index)"""
@@ -75,6 +81,12 @@ def gen_batch(rng, din, raw, clean, kind='exact'):
                     if len(txt) > 3:
                         a = rng.randrange(len(txt) - 2); t = txt[a:a + rng.randint(2, len(txt) - a)]
                         if '\n' not in t: edits.append((t, 'undeleted', None, None))
+            if rng.random() < .25 and raw:                                                               # raw-view target straddling the boundary of a tracked deletion / insertion
+                ms = list(re.finditer(r'\{--|--\}|\{\+\+|\+\+\}', raw))
+                if ms:
+                    m = rng.choice(ms); a = max(0, m.start() - rng.randint(1, 6)); t = raw[a:m.end() + rng.randint(1, 6)]
+                    if '\n' not in t: edits.append((t, rng.choice(['straddle', '']), None, None))
+            if rng.random() < .06: edits.append((rng.choice(['# ', '## ', '#', '###  ']), 'marker-only target', rng.choice([None, 'c']), None))   # nothing to look for
             if rng.random() < .1 and raw:                                                                # target taken from the raw view (may include markup)
                 a = rng.randrange(len(raw)); t = raw[a:a + rng.randint(2, 12)]
                 if '\n' not in t: edits.append((t, 'rawrepl', None, None))
@@ -83,9 +95,13 @@ def gen_batch(rng, din, raw, clean, kind='exact'):
         for _ in range(rng.randint(1, 2)):
             if not acc: break
             t = pick_target(rng, rng.choice(acc))
-            if t: edits.append((t, rng.choice([t + '\nsecond line', '# Heading\nbody line', '## Sub ' + t, 'line one\n\nline two', t + '\n']), rng.choice([None, 'why']), None))
+            if t: edits.append((t, rng.choice(BLOCK_NEWS).replace('{t}', t), rng.choice([None, 'why']), None))
+        if rng.random() < 0.25 and raw:      # an offset-addressed pure insertion of block text
+            edits = [('', rng.choice(BLOCK_NEWS).replace('{t}', 'ins'), rng.choice([None, 'c']), rng.randrange(len(raw) + 1))]
     return [e for e in edits if e is not None]
 
+BLOCK_NEWS = ['{t}\nsecond line', '# Heading\nbody line', '## Sub {t}', 'line one\n\nline two', '{t}\n', '\n{t}', '# A\n#\nB',
+              'x\r\n## H two\ny **b** z', '# Only', '#nospace\nnext', 'a\n# mid _i_\nb', '# **Bold** head\nplain _it_ line\n']
 # ----------------------------------------------------------------------------- running
 def work(job):
     b, edits = job
@@ -133,7 +149,7 @@ def correspondence(ck, c):
     return 'inside'
 
 def case_of(c):
-    return {'doc': {k: c['d'][k] for k in ('stories', 'comments', 'next_uid', 'rpr_table')}, 'edits': [list(e) for e in c['edits']]}
+    return {'doc': A.doc_core(c['d']), 'edits': [list(e) for e in c['edits']]}
 
 # ----------------------------------------------------------------------------- oracles on the real output
 def session_reject(dout, din, author=AUTHOR):
@@ -159,8 +175,14 @@ def session_reject(dout, din, author=AUTHOR):
             else: out.append(n)
         return out
     def only_session(p):
-        at = A.atoms(p['nodes'])
-        return bool(at) and all(a[0] in ('ch', 'sp', 'ref') and a[3] and a[3][0][0] == 'i' and is_sess(a[3][0][1]) for a in at if a[0] not in ('crs', 'cre')) and any(a[0] == 'ch' for a in at)
+        """the paragraph consists of this session's insertions (at least one), anchors and reference runs of this session's comments"""
+        has_ins = False
+        for n in p['nodes']:
+            if n[0] == 'ins' and is_sess(n[2]): has_ins = True
+            elif n[0] in ('crs', 'cre') and n[1] not in old_c: pass
+            elif n[0] == 'run' and n[3] and all(k[0] == 'ref' and k[1] not in old_c for k in n[3]): pass
+            else: return False
+        return has_ins
     def go(bl):
         out = []
         for b in bl:
@@ -227,6 +249,8 @@ def oracle_C08(c):
     r = c['r']; n = len(c['edits'])
     if r['err']: return 'apply_edits raised ' + r['err']
     if r['ap'] + r['sk'] != n: return 'applied (%d) + skipped (%d) != submitted (%d)' % (r['ap'], r['sk'], n)
+    empty = [o for o in r['oracle'] if isinstance(o, list) and o[1] == 0]
+    if empty and r['ap']: return 'a non-empty target was "located" at an empty range (offset %d) by a non-exact matcher stage: a target that cannot be located must be skipped, not applied as an insertion there' % empty[0][0]
     dout = c.get('dout') or docrun.canon_session(A.read(r['out'], table=c['din']['rpr_table']), c['din']); c['dout'] = dout
     iss = [i for i in docrun.struct_issues(r['out']) if 'nested' in i]
     if iss: return 'a revision mark is nested inside another: ' + iss[0]
@@ -335,6 +359,53 @@ def oracle_C10(c, raw_out):
         if not any('[Chg:' in blk for blk in m): return 'new comment %s is shown apart from the change it explains' % x['id']
     return None
 
+def session_only_para(p, old_c):
+    has_ins = False
+    for n in p['nodes']:
+        if n[0] == 'ins' and n[2][1] == AUTHOR and n[2][2] == 'SESSION': has_ins = True
+        elif n[0] in ('crs', 'cre') and n[1] not in old_c: pass
+        elif n[0] == 'run' and n[3] and all(k[0] == 'ref' and k[1] not in old_c for k in n[3]): pass
+        else: return False
+    return has_ins
+def oracle_C16_block(c, dout, new):
+    """multi-line / heading new text: every new paragraph holds one line; its runs share the character formatting of one
+    original run; '# ' lines are heading-styled paragraphs; markers of well-formed spans do not appear, the spans are bold"""
+    old_c = {x['id'] for x in c['din']['comments']}
+    fm = lambda x: tuple(sorted((tv[0], tv[1]) for tv in (x[2] or []) if tv[0] >= 100))
+    orig = set()
+    for p in A.paras(c['din']):
+        for n in p['nodes']:
+            for x in ([n] if n[0] == 'run' else [y for y in n[3] if y[0] == 'run'] if n[0] in ('ins', 'del') else []):
+                if any(k[0] in ('t', 'dt') and k[1] for k in x[3]): orig.add(fm(x))
+    newp = [p for p in A.paras(dout) if session_only_para(p, old_c)]
+    lines = re.split(r'[\r\n]+', new)
+    for p in newp:
+        runs = [x for n in p['nodes'] if n[0] == 'ins' for x in n[3] if x[0] == 'run']
+        fs = {fm(x) for x in runs}
+        txt = ''.join(k[1] for x in runs for k in x[3] if k[0] == 't')
+        if len(fs) > 1: return 'the runs of the inserted line %r carry different character formatting: %r' % (txt, sorted(fs, key=str))
+        if fs and not (fs <= orig): return 'the inserted line %r carries formatting %r that no original text has' % (txt, sorted(fs, key=str))
+        if p['style'][0] == 'H':
+            if not any(re.match(r'#{%d} ' % p['style'][1], l) for l in lines) and not any(q['style'] == p['style'] for q in A.paras(c['din'])):
+                return 'a heading paragraph of level %d was created but no line of the new text asks for it and no paragraph of the input has that style' % p['style'][1]
+    texts = [''.join(k[1] for n in p['nodes'] if n[0] == 'ins' for x in n[3] if x[0] == 'run' for k in x[3] if k[0] == 't') for p in newp]
+    for i, l in enumerate(lines):
+        m = re.match(r'(#+) (.*)$', l)
+        if i == 0 or not m or len(m.group(1)) > 9: continue
+        want = literal(m.group(2).strip()); k = len(m.group(1))
+        cands = [(p, tx) for p, tx in zip(newp, texts) if p['style'] == ['H', k]]
+        if not any(want == tx or (i == len(lines) - 1 and tx and want.startswith(tx)) for p, tx in cands):
+            return 'the line %r did not become a heading paragraph of level %d with its text (heading paragraphs: %r)' % (l, k, [tx for p, tx in cands])
+    for i, l in enumerate(lines):
+        if i == 0 or i == len(lines) - 1: continue          # first / last line may be shortened by context trimming
+        for m in re.finditer(r"\*\*(?=[^\s*])(.*?[^\s*])?\*\*", l):
+            inner = literal(m.group(0)[2:-2])
+            if not inner: continue
+            ok = any(inner in ''.join(k[1] for k in x[3] if k[0] == 't') and any(tv[0] == 1 and tv[1] != 0 for tv in (x[2] or []))
+                     for p in newp for n in p['nodes'] if n[0] == 'ins' for x in n[3] if x[0] == 'run')
+            if not ok: return 'the bold span %r of an inserted line was not rendered as a bold run' % inner
+    if any('**' in tx for tx in texts) and '**' not in literal(new): return 'Markdown markers appear in the inserted paragraphs %r' % texts
+    return None
 def oracle_C16(c):
     """formatting of the characters inside the session's w:ins"""
     r = c['r']
@@ -342,7 +413,7 @@ def oracle_C16(c):
     dout = c.get('dout') or docrun.canon_session(A.read(r['out'], table=c['din']['rpr_table']), c['din']); c['dout'] = dout
     if len(c['edits']) != 1 or r['ap'] != 1: return None
     t, new, cm, idx = c['edits'][0]
-    if '\n' in new or new.startswith('#'): return None
+    if '\n' in new or '\r' in new or new.startswith('#'): return oracle_C16_block(c, dout, new)
     for p in A.paras(dout):
         sess = [n for n in p['nodes'] if n[0] == 'ins' and n[2][1] == AUTHOR and n[2][2] == 'SESSION']
         if not sess: continue
